@@ -59,6 +59,7 @@ type cgScenario struct {
 	// "topic/part" -> how many ListOffsets answers for that partition fail (NOT_LEADER): two make one
 	// offset lookup fail, so the first attempt to start a claim on it fails
 	ClaimStartFails map[string]int
+	Retention       time.Duration // Consumer.Offsets.Retention (> 0: commits are sent as OffsetCommit v2 with a retention time)
 	Oldest          bool
 	Auto            bool
 }
@@ -328,6 +329,9 @@ func cgScenarioFor(rng *rand.Rand, multi bool) *cgScenario {
 			}
 		}
 	}
+	if rng.Intn(4) == 0 {
+		sc.Retention = time.Duration(1+rng.Intn(48)) * time.Hour
+	}
 	if rng.Intn(6) == 0 {
 		sc.ClaimStartFails = map[string]int{fmt.Sprintf("%s/%d", sc.Topics[rng.Intn(len(sc.Topics))], rng.Intn(sc.Parts)): 2 + 2*rng.Intn(2)}
 	}
@@ -378,6 +382,11 @@ func cgCore(tier string) []*cgScenario {
 				out = append(out, sc)
 			}
 		}
+	}
+	// a retention time is configured: commits go out in another request version
+	for _, beh := range []string{"all", "return-after-k"} {
+		out = append(out, &cgScenario{Brokers: 1, Topics: []string{"t"}, Parts: 2, LogN: 12, Strategy: "range", Auto: true, Oldest: true, Faults: map[string][]int{}, Stored: map[string]int64{"t/0": 2},
+			Retention: 24 * time.Hour, Members: []cgMember{{Behaviour: beh, K: 4, CloseAfter: -1, MaxCalls: 6}}})
 	}
 	// one claim cannot be started (its offset lookups fail): that ends the session, the next one runs normally
 	for _, beh := range []string{"all", "return-after-k", "block"} {
@@ -524,6 +533,7 @@ func runGroup(sc *cgScenario, rng *rand.Rand) *cgResult {
 			conf.Consumer.Offsets.Initial = sarama.OffsetOldest
 		}
 		conf.Consumer.Offsets.Retry.Max = 2
+		conf.Consumer.Offsets.Retention = sc.Retention
 		conf.Consumer.Retry.Backoff = time.Millisecond
 		conf.Consumer.MaxWaitTime = 5 * time.Millisecond
 		conf.Consumer.MaxProcessingTime = 20 * time.Millisecond
